@@ -30,11 +30,11 @@ _p("C03", ["shexing", "c06_nt"], ["schemas"],
    "Deductive: relaxation rule ('?' iff allow_opt and cardinality 1, else '*'; only below 100 %), exact-cardinality generalisation, '+' always offered and "
    "preferred under keep_less_specific unless useless, with the mode off no cardinality is written. Conformance of every instance (ShEx semantics, "
    "recursive references) is decided by an independent validator on schema-consistent graphs: bounded (schemas.py).")
-_p("C04", ["shexing", "c20_config"], ["schemas"],
+_p("C04", ["shexing", "c20_config", "c08_channels"], ["schemas"],
    "Deductive: exception-freedom (None dereference, missing keys, index range, call shapes, list.remove membership) of the node-kind merge under its "
    "representation invariant, which the constructor is proved to establish; call shapes of shex_graph / profile_graph. Totality of the composed pipeline on "
    "adversarial mixes x configurations x formats: bounded (schemas.py).")
-_p("C05", ["c05_tokens", "c18_state"], ["schemas"],
+_p("C05", ["c05_tokens", "c18_state", "instances"], ["schemas"],
    "Deductive: the label built for a class (build_shapes_name_for_class_uri: '<' + shapes namespace + local name + '>', never raises; for slash namespaces the "
    "local name is exactly the last path segment of the class IRI, so labels are injective on distinct local names; the '#' form is left to the monitor), the choice of the shapes prefix (first free default, proved against a user "
    "dictionary that already uses some of them), shape kinds only for nodes of the instance dictionary (reference closure at the source), and the output buffer "
@@ -51,12 +51,12 @@ _p("C07", ["c07_ttl", "c06_nt"], ["readers"],
    "is escaped), and the subject/predicate/object automaton (_assing_tmp_element_and_promote_state keeps the other two slots, rejects a term in any other state) "
    "that carries ';' ',' and multi-line statements. Prefix/base expansion of a token is assumed here. Whole documents (3 layouts per statement set, prefix and "
    "base re-declaration, numeric/boolean shorthands) against rdflib: bounded (readers.py).")
-_p("C08", ["c08_channels", "c06_nt"], ["channels"],
+_p("C08", ["c08_channels", "c06_nt", "c17_min_iri"], ["channels"],
    "Deductive: the delivery dispatch (_decide_line_reader returns the reader class that matches exactly the one source given and hands it that source unchanged; "
    "check_just_one_not_none inlined from the real source) and the raw-string reader (same lines as a file with the same text: split at LINE FEED only). Parsers "
    "themselves are C06/C07; rdflib, gzip/zip/xz and the file system are assumed. Equality of the extracted shapes across all channels for the same abstract "
    "graph: bounded (channels.py).")
-_p("C09", ["instances", "profiling", "shexing", "c06_nt"], ["pipeline"],
+_p("C09", ["instances", "profiling", "shexing", "c06_nt", "c17_min_iri"], ["pipeline"],
    "Deductive: two counting steps commute (lemma over the step contract of pass 2: same counters, same nodes, same class lists in either order); node and "
    "class names are opaque atoms in the verified counting code, so consistent renaming of blank nodes cannot be observed (parametricity of the accepted "
    "encoding); sorting is by probability with the group's members preserved. Permutations and relabelings of whole documents, and the choice under ties: " + MON)
@@ -95,7 +95,7 @@ _p("C18", ["c18_state", "c20_config"], ["history"],
    "Deductive: buffer invariant of the ShExC serializer (sink text ++ pending lines grows by exactly the written line, across the 5000-line flush; file sink "
    "assumed to append), cache invariant of Shaper.shex_graph (the shapes that are serialised were computed for this call's threshold). Call histories of "
    "length <= 3, pairs of Shapers, outputs > 10 000 lines: bounded (history.py).")
-_p("C19", ["c05_tokens"], ["static.c19_scan", "determinism"],
+_p("C19", ["c05_tokens", "c20_config"], ["static.c19_scan", "determinism"],
    "Deductive/syntactic: the finite list of nondeterminism sources (set constructions, random, id, hash) is recomputed from the tree on every run and must equal "
    "the reviewed list; membership-only sets are checked (syntactically) never to be iterated; the shapes prefix is proved to be the first free default, so "
    "random is reached only when all four are taken. Byte-identity across processes with different hash seeds: bounded (determinism.py, fresh subprocesses).")
